@@ -49,7 +49,7 @@ T9 = {
     "fileio/read_uf2.h": ["read_uf2"],
     "fileio/read_elf.cpp": ["read_elf"],
     "disasm/tms9900.cpp": ["list_output_tms9900", "disasm_range_tms9900"],
-    "disasm/msp430.cpp": ["list_output_msp430_both"],
+    "disasm/msp430.cpp": ["list_output_msp430_both", "disasm_range_msp430_both"],
     "disasm/6800.cpp": ["list_output_6800", "disasm_range_6800"],
     "disasm/6800.h": ["list_output_6800", "disasm_range_6800"],
     "disasm/6809.cpp": ["list_output_6809", "disasm_range_6809"],
@@ -198,6 +198,7 @@ EXTRACT = [
     ("asm/riscv.cpp", r"^static uint32_t permutate_jal\(", "riscv_asm_permutate_jal.inc"),
     ("disasm/riscv.cpp", r"^static int32_t permutate_branch\(", "riscv_dis_permutate_branch.inc"),
     ("disasm/riscv.cpp", r"^static int32_t permutate_jal\(", "riscv_dis_permutate_jal.inc"),
+    ("disasm/msp430.cpp", r"^(?:extern \"C\" |static )?void disasm_range_msp430_both\(", "disasm_range_msp430_both.inc"),
     ("core/AsmContext.cpp", r"^int AsmContext::link\(\)", "AsmContext_link.inc"),
     ("core/Linker.cpp", r"^uint8_t \*Linker::get_code_from_symbol\(", "Linker_get_code_from_symbol.inc"),
     ("core/UtilContext.cpp", r"^void UtilContext::print8\(const char \*token\)", "UtilContext_print8.inc"),
@@ -257,7 +258,7 @@ def prep(repo, dst, t9_extra=None):
         body = extract_function(whole, sig)
         if body is not None:
             # the file-level READ_RAM* accessor macros the function text uses are copied along (verbatim, guarded)
-            macros = "".join("#ifndef %s\n%s\n#endif\n" % (m.group(1), m.group(0)) for m in re.finditer(r"^#define (READ_RAM\w*)\(a\).*$", whole, re.M))
+            macros = "".join("#ifndef %s\n%s\n#endif\n" % (m.group(1), m.group(0)) for m in re.finditer(r"^#define (READ_RAM\w*)\(a\)(?:.*\\\n)*.*$", whole, re.M))
             with open(os.path.join(gen, out), "w", errors="surrogateescape") as fh:
                 fh.write("/* extracted verbatim from %s by tools/prep_tree.py */\n" % rel + macros + body)
             report.setdefault(rel, {})["X1"] = 1
